@@ -194,6 +194,7 @@ impl Interceptor for Tap {
                     let (_, rest) = buf.split_mut();
                     rest[..new.len()].copy_from_slice(&new);
                     buf.set_position(new.len());
+                    self.rec.app(self.ep, App::TaskDone { name: format!("adv-injected-{}", pn) });
                 }
             }
         }
